@@ -6,6 +6,7 @@ def explore(run, lean):
     queue_corr.explore(run, "C14", 800 if run.tier == "quick" else 12000)
     queue_corr.explore_same_objects(run, "C14", 150 if run.tier == "quick" else 3000)
     queue_corr.explore_failed_step(run, "C14", 100 if run.tier == "quick" else 2000)
+    queue_corr.explore_nested_circuit(run, "C14", 100 if run.tier == "quick" else 2000)
     run.extra["rule"] = ("random queued charts (<=8 states) whose handlers post/defer/recall/scribble, capacities 1-5 and 500, "
                          "scripts of start_at + 3-14 client ops (post_fifo, post_lifo, defer, recall, next_rtc, complete_circuit); "
                          "non-trivial = the script contains an operation the property speaks about; distinct by canonical JSON")
